@@ -9,6 +9,7 @@ import RaptorModel.Driver.C11
 import RaptorModel.Driver.Amg
 import RaptorModel.Driver.C17
 import RaptorModel.Driver.C14
+import RaptorModel.Driver.C13
 /-!
 `rmdrv <casefile>` — reads one case per line (`<prop> <op> <int> <int> ...`), runs the executable
 model and the decidable specification predicates, prints one verdict line per case:
@@ -30,6 +31,7 @@ def dispatch (prop op : String) (a : Array Int) : Verdict :=
   | "C08" => Amg.run08 op a
   | "C17" => C17.run op a
   | "C14" => C14.run op a
+  | "C13" => C13.run op a
   | "C01" => Amg.run prop op a
   | "C10" => Amg.run prop op a
   | _ => badCase s!"unknown property {prop}"
